@@ -2,10 +2,15 @@
 //!
 //! This module is only available with the `aisle` [feaure](crate::_features).
 //!
+#[cfg(not(feature = "verif_hooks"))]
 use std::{
     borrow::Cow,
     collections::{HashMap, HashSet},
 };
+#[cfg(feature = "verif_hooks")]
+use std::borrow::Cow;
+#[cfg(feature = "verif_hooks")]
+use crate::verif_seam::{HashMap, HashSet, SeamCtor};
 
 use serde::{Deserialize, Serialize};
 use thiserror::Error;
